@@ -212,13 +212,12 @@ def under_choice(kids, path):
 
 
 def flat(kids, path=()):
+    """the nodes of a tree as (path, vals)"""
     out = set()
     for k in kids:
         p = path + (k["name"],)
-        if k["kids"]:
-            out |= flat(k["kids"], p)
-        else:
-            out.add((p, tuple(k["vals"])))
+        out.add((p, tuple(k["vals"])))
+        out |= flat(k["kids"], p)
     return out
 
 
@@ -230,7 +229,8 @@ def deco_class(schema, d, want, got):
         what = "extra-node"
     else:
         what = "default-missing"
-    x = sorted(extra or lost)[0][0] if (extra or lost) else ()
+    pool = sorted(extra or lost, key=lambda e: (not e[1], e))      # prefer a node that carries a value
+    x = pool[0][0] if pool else ()
     return what, under_choice(schema, list(x)), list(x)
 
 
